@@ -58,6 +58,8 @@ const (
 	OILt    // Int/Real <
 	OBv2Int // unsigned value of BV as Int
 	ORDiv   // Real division
+	OAddC   // (x,y,c) width w+1: x+y+c exactly
+	OSubB   // (x,y,c) width w+1: low w bits = x-y-c mod 2^w, top bit = borrow
 )
 
 var opNames = map[Op]string{OAdd: "bvadd", OSub: "bvsub", OMul: "bvmul", OUDiv: "bvudiv", OURem: "bvurem", OSDiv: "bvsdiv", OSRem: "bvsrem",
@@ -74,6 +76,7 @@ type Term struct {
 	Name   string
 	ID     int
 	maybe  *big.Int // BV: bits that may be one
+	ub     *big.Int // BV: upper bound of the unsigned value
 }
 
 func (t *Term) IsConst() bool { return t.Op == OConst }
@@ -416,6 +419,15 @@ func (b *Builder) And(x, y *Term) *Term {
 	if x.IsConst() || (!y.IsConst() && x.ID > y.ID) {
 		x, y = y, x
 	}
+	if c, ok := b.maskCond(x); ok {
+		return b.Ite(c, y, b.ConstU(w, 0))
+	}
+	if c, ok := b.maskCond(y); ok {
+		return b.Ite(c, x, b.ConstU(w, 0))
+	}
+	if r := b.liftIte(OAnd, x, y); r != nil {
+		return r
+	}
 	if y.IsConst() {
 		mx := b.Maybe(x)
 		if new(big.Int).And(mx, y.K).Sign() == 0 {
@@ -451,6 +463,9 @@ func (b *Builder) Or(x, y *Term) *Term {
 	}
 	if x.IsConst() || (!y.IsConst() && x.ID > y.ID) {
 		x, y = y, x
+	}
+	if r := b.liftIte(OOr, x, y); r != nil {
+		return r
 	}
 	if r := b.disjointJoin(x, y); r != nil {
 		return r
@@ -501,9 +516,6 @@ func (b *Builder) Xor(x, y *Term) *Term {
 	if x.IsConst() || (!y.IsConst() && x.ID > y.ID) {
 		x, y = y, x
 	}
-	if r := b.disjointJoin(x, y); r != nil {
-		return r
-	}
 	// (a ^ b) ^ b = a
 	if x.Op == OXor {
 		if x.Args[0] == y {
@@ -520,6 +532,12 @@ func (b *Builder) Xor(x, y *Term) *Term {
 		if y.Args[1] == x {
 			return y.Args[0]
 		}
+	}
+	if r := b.liftIte(OXor, x, y); r != nil {
+		return r
+	}
+	if r := b.disjointJoin(x, y); r != nil {
+		return r
 	}
 	return b.mk(OXor, x.S, nil, 0, 0, "", x, y)
 }
@@ -560,6 +578,15 @@ func (b *Builder) shift(op Op, x, y *Term) *Term {
 	}
 	if x.isZero() {
 		return x
+	}
+	// shift by a term with very few possible values: case split into constant shifts
+	if !y.IsConst() && b.UB(y).Cmp(big.NewInt(7)) <= 0 {
+		n := int(b.UB(y).Int64())
+		r := b.shift(op, x, b.ConstU(w, uint64(n)))
+		for k := n - 1; k >= 0; k-- {
+			r = b.Ite(b.Eq(y, b.ConstU(w, uint64(k))), b.shift(op, x, b.ConstU(w, uint64(k))), r)
+		}
+		return r
 	}
 	return b.mk(op, x.S, nil, 0, 0, "", x, y)
 }
@@ -621,8 +648,8 @@ func (b *Builder) Extract(x *Term, hi, lo int) *Term {
 		if x.Args[1].IsConst() || x.Args[2].IsConst() {
 			return b.Ite(x.Args[0], b.Extract(x.Args[1], hi, lo), b.Extract(x.Args[2], hi, lo))
 		}
-	case OAdd, OSub, OMul:
-		if lo == 0 && (x.Args[0].Op == OZExt || x.Args[0].IsConst()) && (x.Args[1].Op == OZExt || x.Args[1].IsConst()) {
+	case OAdd, OSub:
+		if lo == 0 && nw <= 16 && (x.Args[0].Op == OZExt || x.Args[0].IsConst()) && (x.Args[1].Op == OZExt || x.Args[1].IsConst()) {
 			// low bits of modular ops depend only on low bits of operands
 			ok := true
 			for _, a := range x.Args {
@@ -1180,6 +1207,14 @@ func (b *Builder) Eval(t *Term, env map[string]*big.Int, memo map[int]*big.Int) 
 		}
 	case OBNot:
 		r = bool2(a[0].Sign() == 0)
+	case OAddC:
+		r = new(big.Int).Add(a[0], a[1])
+		r.Add(r, a[2])
+		r = wrap(r)
+	case OSubB:
+		r = new(big.Int).Sub(a[0], a[1])
+		r.Sub(r, a[2])
+		r = wrap(r)
 	case OIMod:
 		r = new(big.Int).Mod(a[0], a[1])
 	case OIDiv:
@@ -1191,4 +1226,330 @@ func (b *Builder) Eval(t *Term, env map[string]*big.Int, memo map[int]*big.Int) 
 	}
 	memo[t.ID] = r
 	return r
+}
+
+// maskCond recognises terms that are all-ones when cond holds and zero otherwise.
+func (b *Builder) maskCond(t *Term) (*Term, bool) {
+	w := int(t.S)
+	if w <= 1 {
+		return nil, false
+	}
+	switch t.Op {
+	case ONeg:
+		x := t.Args[0]
+		if b.Maybe(x).Cmp(bigOne) <= 0 {
+			return b.Eq(b.Extract(x, 0, 0), b.ConstU(1, 1)), true
+		}
+	case OSExt:
+		if int(t.Args[0].S) == 1 {
+			return b.Eq(t.Args[0], b.ConstU(1, 1)), true
+		}
+	case OIte:
+		if t.Args[1].isOnes() && t.Args[2].isZero() {
+			return t.Args[0], true
+		}
+		if t.Args[2].isOnes() && t.Args[1].isZero() {
+			return b.BNot(t.Args[0]), true
+		}
+	case ONot:
+		if c, ok := b.maskCond(t.Args[0]); ok {
+			return b.BNot(c), true
+		}
+	case OAShr:
+		if t.Args[1].IsConst() && t.Args[1].K.Cmp(big.NewInt(int64(w-1))) >= 0 {
+			return b.Eq(b.Extract(t.Args[0], w-1, w-1), b.ConstU(1, 1)), true
+		}
+	}
+	return nil, false
+}
+
+// liftIte: op(Ite(c,a,b), Ite(c,d,e)) -> Ite(c, op(a,d), op(b,e)); op(x, Ite(c,a,k)) with k in {0, ones}.
+func (b *Builder) liftIte(op Op, x, y *Term) *Term {
+	ap := func(p, q *Term) *Term {
+		switch op {
+		case OAnd:
+			return b.And(p, q)
+		case OOr:
+			return b.Or(p, q)
+		case OXor:
+			return b.Xor(p, q)
+		case OAdd:
+			return b.Add(p, q)
+		}
+		panic("liftIte")
+	}
+	if x.Op == OIte && y.Op == OIte && x.Args[0] == y.Args[0] {
+		return b.Ite(x.Args[0], ap(x.Args[1], y.Args[1]), ap(x.Args[2], y.Args[2]))
+	}
+	if x.Op == OIte && y.Op == OIte && x.Args[0].Op == OBNot && x.Args[0].Args[0] == y.Args[0] {
+		return b.Ite(y.Args[0], ap(x.Args[2], y.Args[1]), ap(x.Args[1], y.Args[2]))
+	}
+	if x.Op == OIte && y.Op == OIte && y.Args[0].Op == OBNot && y.Args[0].Args[0] == x.Args[0] {
+		return b.Ite(x.Args[0], ap(x.Args[1], y.Args[2]), ap(x.Args[2], y.Args[1]))
+	}
+	triv := func(t *Term) bool { return t.isZero() || t.isOnes() }
+	if y.Op == OIte && (triv(y.Args[1]) || triv(y.Args[2])) && !x.IsConst() && x.Op != OIte {
+		return b.Ite(y.Args[0], ap(x, y.Args[1]), ap(x, y.Args[2]))
+	}
+	if x.Op == OIte && (triv(x.Args[1]) || triv(x.Args[2])) && !y.IsConst() && y.Op != OIte {
+		return b.Ite(x.Args[0], ap(x.Args[1], y), ap(x.Args[2], y))
+	}
+	return nil
+}
+
+func (b *Builder) AddC(x, y, c *Term) *Term {
+	w := int(x.S)
+	if x.IsConst() && y.IsConst() && c.IsConst() {
+		v := new(big.Int).Add(x.K, y.K)
+		return b.Const(w+1, v.Add(v, c.K))
+	}
+	if y.isZero() && c.isZero() {
+		return b.ZExt(x, w+1)
+	}
+	if x.isZero() && c.isZero() {
+		return b.ZExt(y, w+1)
+	}
+	if !x.IsConst() && !y.IsConst() && x.ID > y.ID {
+		x, y = y, x
+	}
+	return b.mk(OAddC, Sort(w+1), nil, 0, 0, "", x, y, c)
+}
+
+func (b *Builder) SubB(x, y, c *Term) *Term {
+	w := int(x.S)
+	if x.IsConst() && y.IsConst() && c.IsConst() {
+		v := new(big.Int).Sub(x.K, y.K)
+		v.Sub(v, c.K)
+		return b.Const(w+1, v) // two's complement wrap puts the borrow in bit w
+	}
+	if y.isZero() && c.isZero() {
+		return b.ZExt(x, w+1)
+	}
+	return b.mk(OSubB, Sort(w+1), nil, 0, 0, "", x, y, c)
+}
+
+// UB returns an upper bound of the unsigned value of a BV term (never above Maybe).
+func (b *Builder) UB(t *Term) *big.Int {
+	if t.ub != nil {
+		return t.ub
+	}
+	w := int(t.S)
+	full := maskW(w)
+	m := b.Maybe(t)
+	var u *big.Int
+	min := func(x, y *big.Int) *big.Int {
+		if x.Cmp(y) < 0 {
+			return x
+		}
+		return y
+	}
+	switch t.Op {
+	case OConst:
+		u = t.K
+	case OZExt:
+		u = b.UB(t.Args[0])
+	case OAdd:
+		u = new(big.Int).Add(b.UB(t.Args[0]), b.UB(t.Args[1]))
+		if u.Cmp(full) > 0 {
+			u = full
+		}
+	case OAddC:
+		u = new(big.Int).Add(b.UB(t.Args[0]), b.UB(t.Args[1]))
+		u.Add(u, b.UB(t.Args[2]))
+		if u.Cmp(full) > 0 {
+			u = full
+		}
+	case OMul:
+		u = new(big.Int).Mul(b.UB(t.Args[0]), b.UB(t.Args[1]))
+		if u.Cmp(full) > 0 {
+			u = full
+		}
+	case OExtract:
+		ua := b.UB(t.Args[0])
+		if ua.BitLen() <= t.P0+1 {
+			u = new(big.Int).Rsh(ua, uint(t.P1))
+		}
+	case OConcat:
+		u = new(big.Int).Lsh(b.UB(t.Args[0]), uint(t.Args[1].S))
+		u.Add(u, b.UB(t.Args[1]))
+	case OIte:
+		u = b.UB(t.Args[1])
+		if b.UB(t.Args[2]).Cmp(u) > 0 {
+			u = b.UB(t.Args[2])
+		}
+	case OAnd:
+		u = min(b.UB(t.Args[0]), b.UB(t.Args[1]))
+	case OURem:
+		if t.Args[1].IsConst() && t.Args[1].K.Sign() > 0 {
+			u = min(new(big.Int).Sub(t.Args[1].K, bigOne), b.UB(t.Args[0]))
+		}
+	case OUDiv:
+		if t.Args[1].IsConst() && t.Args[1].K.Sign() > 0 {
+			u = new(big.Int).Div(b.UB(t.Args[0]), t.Args[1].K)
+		}
+	}
+	if u == nil || u.Cmp(m) > 0 {
+		u = m
+	}
+	t.ub = u
+	return u
+}
+
+// Subst rebuilds t with variables replaced by constants (env: var name -> value), re-simplifying.
+func (b *Builder) Subst(t *Term, env map[string]*big.Int, memo map[int]*Term) *Term {
+	if r, ok := memo[t.ID]; ok {
+		return r
+	}
+	var r *Term
+	switch t.Op {
+	case OConst:
+		r = t
+	case OVar:
+		if v, ok := env[t.Name]; ok {
+			switch {
+			case t.S > 0:
+				r = b.Const(int(t.S), v)
+			case t.S == SBool:
+				r = b.Bool(v.Sign() != 0)
+			case t.S == SInt:
+				r = b.IntConst(v)
+			default:
+				r = b.RealConst(v)
+			}
+		} else {
+			r = t
+		}
+	default:
+		a := make([]*Term, len(t.Args))
+		same := true
+		for i, x := range t.Args {
+			a[i] = b.Subst(x, env, memo)
+			if a[i] != x {
+				same = false
+			}
+		}
+		if same {
+			r = t
+		} else {
+			r = b.rebuild(t, a)
+		}
+	}
+	memo[t.ID] = r
+	return r
+}
+
+func (b *Builder) rebuild(t *Term, a []*Term) *Term {
+	switch t.Op {
+	case OAdd:
+		return b.Add(a[0], a[1])
+	case OSub:
+		return b.Sub(a[0], a[1])
+	case OMul:
+		return b.Mul(a[0], a[1])
+	case OUDiv:
+		return b.UDiv(a[0], a[1])
+	case OURem:
+		return b.URem(a[0], a[1])
+	case OSDiv:
+		return b.SDiv(a[0], a[1])
+	case OSRem:
+		return b.SRem(a[0], a[1])
+	case ONeg:
+		return b.Neg(a[0])
+	case OAnd:
+		return b.And(a[0], a[1])
+	case OOr:
+		return b.Or(a[0], a[1])
+	case OXor:
+		return b.Xor(a[0], a[1])
+	case ONot:
+		return b.Not(a[0])
+	case OShl:
+		return b.Shl(a[0], a[1])
+	case OLShr:
+		return b.LShr(a[0], a[1])
+	case OAShr:
+		return b.AShr(a[0], a[1])
+	case OExtract:
+		return b.Extract(a[0], t.P0, t.P1)
+	case OConcat:
+		return b.Concat(a[0], a[1])
+	case OZExt:
+		return b.ZExt(a[0], int(t.S))
+	case OSExt:
+		return b.SExt(a[0], int(t.S))
+	case OIte:
+		return b.Ite(a[0], a[1], a[2])
+	case OEq:
+		return b.Eq(a[0], a[1])
+	case OUlt:
+		return b.Ult(a[0], a[1])
+	case OUle:
+		return b.Ule(a[0], a[1])
+	case OSlt:
+		return b.Slt(a[0], a[1])
+	case OSle:
+		return b.Sle(a[0], a[1])
+	case OBAnd:
+		return b.BAnd(a...)
+	case OBOr:
+		return b.BOr(a...)
+	case OBNot:
+		return b.BNot(a[0])
+	case OUF:
+		return b.UF(t.Name, t.S, a...)
+	case OIDiv:
+		return b.IDiv(a[0], a[1])
+	case OIMod:
+		return b.IMod(a[0], a[1])
+	case OILe:
+		return b.ILe(a[0], a[1])
+	case OILt:
+		return b.ILt(a[0], a[1])
+	case OBv2Int:
+		return b.Bv2Int(a[0])
+	case ORDiv:
+		return b.RDiv(a[0], a[1])
+	case OAddC:
+		return b.AddC(a[0], a[1], a[2])
+	case OSubB:
+		return b.SubB(a[0], a[1], a[2])
+	}
+	panic(fmt.Sprintf("rebuild: op %d", t.Op))
+}
+
+// symProducts lists BV multiplications of two non-constant operands below the given roots.
+func symProducts(roots []*Term) []*Term {
+	seen := map[int]bool{}
+	var out []*Term
+	var walk func(t *Term)
+	walk = func(t *Term) {
+		if seen[t.ID] {
+			return
+		}
+		seen[t.ID] = true
+		if t.Op == OMul && t.S > 0 && !t.Args[0].IsConst() && !t.Args[1].IsConst() {
+			out = append(out, t)
+		}
+		for _, a := range t.Args {
+			walk(a)
+		}
+	}
+	for _, r := range roots {
+		walk(r)
+	}
+	return out
+}
+
+func termVars(t *Term, seen map[int]bool, out map[string]*Term) {
+	if seen[t.ID] {
+		return
+	}
+	seen[t.ID] = true
+	if t.Op == OVar {
+		out[t.Name] = t
+	}
+	for _, a := range t.Args {
+		termVars(a, seen, out)
+	}
 }
